@@ -67,7 +67,7 @@ def ext_sessions(tier, seed):
         raise ToolError("Gen_ExtId produced no behaviours")
     rng = random.Random(seed)
     rng.shuffle(plans)
-    plans = plans[:40 if tier == "quick" else 1200]
+    plans = plans[:40 if tier == "quick" else 400]
     sessions = []
     for k, p in enumerate(plans):
         cases, cid = [], 0
@@ -165,7 +165,8 @@ def judge_in_chunks(lines, cd, tag, n_chunks):
         a, b = bounds[k], bounds[k + 1]
         w = 0
         for l in lines[a:b]:
-            w += 6 if ('"kind":"upd"' in l or '"kind":"txn"' in l) else 3 if ('"kind":"read"' in l or '"kind":"bread"' in l or '"kind":"idx"' in l) else 1
+            w += 8 if ('"kind":"upd"' in l or '"kind":"txn"' in l) else 12 if '"kind":"idx"' in l \
+                else 3 if ('"kind":"read"' in l or '"kind":"bread"' in l) else 1
         sessions.append((w, a, b))
     n_chunks = max(1, min(n_chunks, len(sessions)))
     load = [0] * n_chunks
